@@ -105,6 +105,7 @@ class Engine(StmtMixin):
 
     def new_generator_object(self, st: State, ctx: Ctx, fi: FuncInfo, c: Contract, args, kwargs, line: int) -> Ref:
         frame = self.new_frame(st, None, "contract:" + fi.qualname)
+        args = [self.strip_opt(st, a) for a in args]
         self.bind_params(st, ctx, fi, frame, list(args), dict(kwargs), None)
         sctx = self.spec_ctx(fi, frame, None, {})
         for cl in c.requires:
@@ -294,7 +295,7 @@ class Engine(StmtMixin):
                 s2.assume(self.eval_clause(cl, s2, ectx))
             if self.feasible(s2):
                 results.append((s2, Raise(exc)))
-        res = self.make_symbolic(st, c.result, "ret")
+        res = self.make_result(st, c, sctx)
         nctx = self.spec_ctx(fi, frame, (old, frame), {**specials, "result": res})
         for cl in c.ensures:
             st.assume(self.eval_clause(cl, st, nctx))
@@ -400,7 +401,10 @@ class Engine(StmtMixin):
         return self.obligations[n0:]
 
     def oblige_sat(self, st: State, line: int, name: str) -> None:
-        ob = Obligation(f"{self.cur_fn_key}:vacuity:{name}", self.cur_fn_key, "vacuity", line, list(st.pc), z3.BoolVal(False), (), "must NOT be provable")
+        base = f"{self.cur_fn_key}:vacuity:{name}"
+        n = self._ident_count.get(base, 0) + 1
+        self._ident_count[base] = n
+        ob = Obligation(f"{base}#{n}", self.cur_fn_key, "vacuity", line, list(st.pc), z3.BoolVal(False), (), "must NOT be provable")
         self.obligations.append(ob)
 
     def exit_line(self, oc) -> int:
@@ -408,6 +412,12 @@ class Engine(StmtMixin):
 
     def check_exit(self, st: State, ctx: Ctx, c: Contract, oc: Any, fi: FuncInfo) -> None:
         ectx = ctx.sub(spec=True)
+        if isinstance(oc, Raise):
+            _cls = META[oc.exc.oid].cls
+            kind_name = _cls.cls.__name__ if isinstance(_cls, PyClass) else _cls.ci.name
+        else:
+            kind_name = "normal"
+        self.oblige_sat(st, fi.node.lineno, f"exit-live:{kind_name}")
         if isinstance(oc, (Normal, Return)):
             val = oc.val if isinstance(oc, Return) else None
             ectx.specials["result"] = val
